@@ -95,6 +95,9 @@ type DRAClaim struct {
 	AllocZone string      `json:"allocZone"`
 	Reserved  []string    `json:"reserved"`
 	Others    int         `json:"others"` // number of additional NON-pod consumers in status.reservedFor
+	// AltClass != "": the request is FirstAvailable [a: Count x Class (CapReq), b: AltCount x AltClass]
+	AltClass string `json:"altClass"`
+	AltCount int    `json:"altCount"`
 }
 
 // DRAPodClaims lists the claims a pod (key ns/name) references through spec.resourceClaims.
@@ -269,6 +272,11 @@ func (sim *Sim) materialiseDRA() error {
 			req.Capacity = &resourcev1.CapacityRequirements{Requests: map[resourcev1.QualifiedName]resource.Quantity{DRADim: qty(c.CapReq)}}
 		}
 		rc.Spec.Devices.Requests = []resourcev1.DeviceRequest{{Name: DRARequest, Exactly: req}}
+		if c.AltClass != "" {
+			rc.Spec.Devices.Requests = []resourcev1.DeviceRequest{{Name: DRARequest, FirstAvailable: []resourcev1.DeviceSubRequest{
+				{Name: "a", DeviceClassName: req.DeviceClassName, AllocationMode: req.AllocationMode, Count: req.Count, Capacity: req.Capacity},
+				{Name: "b", DeviceClassName: c.AltClass, AllocationMode: resourcev1.DeviceAllocationModeExactCount, Count: int64(c.AltCount)}}}}
+		}
 		var st resourcev1.ResourceClaimStatus
 		if len(c.Alloc) > 0 {
 			st.Allocation = &resourcev1.AllocationResult{}
